@@ -14,3 +14,4 @@ import OidcModel.Proofs.C04Faults
 import OidcModel.Proofs.C04Concurrent
 import OidcModel.Proofs.C04Parse
 import OidcModel.Proofs.C04ConcurrentWire
+import OidcModel.Proofs.C04SC
